@@ -21,6 +21,29 @@ pub struct Setup {
     pub own: u16,
     pub foreign: u16,
     pub page_lists: Vec<Vec<Page<'static>>>,
+    /// (id, operation, its reply script): performed on the same Sign before the operation under test
+    pub prelude: Option<(usize, Op, Vec<Rep>)>,
+}
+
+pub const N_PRELUDES: usize = 5;
+
+/// 1: send_pages([p]) ending 'showing pages'; 2: the same ending 'page loaded'; 3: configure; 4: show_loaded_page;
+/// 5: send_pages([p]) whose receive request is not answered (the call fails).
+pub fn with_prelude(mut su: Setup, id: usize) -> Setup {
+    let coop = |op: Op, auto: bool| crate::ctlsys::cooperative_script(op, su.own, su.foreign, su.typ, &su.page_lists, auto);
+    su.prelude = match id {
+        1 => Some((1, Op::SendPages(1), coop(Op::SendPages(1), true))),
+        2 => Some((2, Op::SendPages(1), coop(Op::SendPages(1), false))),
+        3 => Some((3, Op::Configure, coop(Op::Configure, false))),
+        4 => Some((4, Op::Show, coop(Op::Show, false))),
+        5 => Some((5, Op::SendPages(1), vec![Rep::Silent])),
+        _ => None,
+    };
+    su
+}
+
+fn arm_prelude(su: &Setup) {
+    crate::ctlsys::set_prelude(su.prelude.as_ref().map(|(_, o, s)| (*o, s.clone())));
 }
 
 pub fn make_setup(type_idx: usize, own: u16, foreign: u16) -> Setup {
@@ -30,11 +53,14 @@ pub fn make_setup(type_idx: usize, own: u16, foreign: u16) -> Setup {
     p.set_pixel(w - 1, h - 1, true);
     let mut q = Page::new(PageId(2), w, h);
     q.set_all_pixels(true);
-    Setup { typ: t, own, foreign, page_lists: vec![vec![], vec![p.clone()], vec![p, q]] }
+    // a list long enough for 64+ chunks per attempt (a retry limit that grows with the amount sent)
+    let per_page = (crate::refmodel::padded(w as u64, h as u64) / 16) as usize;
+    let many: Vec<Page<'static>> = (0..(64 / per_page + 2)).map(|i| if i % 2 == 0 { p.clone() } else { q.clone() }).collect();
+    Setup { typ: t, own, foreign, page_lists: vec![vec![], vec![p.clone()], vec![p, q], many], prelude: None }
 }
 
 pub fn ops() -> Vec<Op> {
-    vec![Op::ShutDown, Op::Show, Op::LoadNext, Op::SendPages(0), Op::SendPages(1), Op::SendPages(2), Op::Configure, Op::ConfigureIfNeeded]
+    vec![Op::ShutDown, Op::Show, Op::LoadNext, Op::SendPages(0), Op::SendPages(1), Op::SendPages(2), Op::SendPages(3), Op::Configure, Op::ConfigureIfNeeded]
 }
 
 fn op_name(op: Op) -> String {
@@ -46,6 +72,7 @@ fn op_name(op: Op) -> String {
 
 fn case_json(su: &Setup, type_idx: usize, op: Op, script: &[usize]) -> Value {
     json!({"kind": "script", "type_index": type_idx, "sign_type": format!("{:?}", su.typ), "own": su.own, "foreign": su.foreign, "op": op_name(op), "op_code": op_code(op),
+           "prelude": su.prelude.as_ref().map(|p| p.0).unwrap_or(0), "prelude_shown": su.prelude.as_ref().map(|p| format!("{} answered [{}]", op_name(p.1), p.2.iter().map(|r| rep_str(*r)).collect::<Vec<_>>().join(", "))),
            "script": script, "script_shown": script.iter().map(|&i| rep_str(rep_of(i))).collect::<Vec<_>>()})
 }
 
@@ -127,7 +154,7 @@ fn explore(mode: Mode, id: &str, su: &Setup, ti: usize, op: Op, prefix: &mut Vec
         stats.aborted = true;
         return;
     }
-    if stats.runs % 4096 == 4095 {
+    if stats.runs % 64 == 0 {
         if let Some((t0, budget)) = DEADLINE.get() {
             if t0.elapsed().as_secs_f64() > *budget {
                 ABORT.store(true, std::sync::atomic::Ordering::Relaxed);
@@ -213,11 +240,40 @@ pub fn run_mode(ctx: &Ctx, mode: Mode) -> Report {
             }
         }
     }
-    let setups: Vec<Setup> = configs.iter().map(|&(ti, o, f)| make_setup(ti, o, f)).collect();
+    let mut setups: Vec<Setup> = configs.iter().map(|&(ti, o, f)| make_setup(ti, o, f)).collect();
+    // operation pairs on ONE Sign object: a prelude operation, then the complete reply tree of the second operation,
+    // judged against the same memoryless reference (first configuration only; configure and configure_if_needed as
+    // second operation in the thorough tier only)
+    let mut configs = configs;
+    let second_ops: Vec<Op> = if thorough { vec![Op::ShutDown, Op::Show, Op::LoadNext, Op::SendPages(0), Op::SendPages(1), Op::Configure] } else { vec![Op::ShutDown, Op::Show, Op::LoadNext, Op::SendPages(0), Op::SendPages(1)] };
+    for pid in 1..=N_PRELUDES {
+        let (ti, o, f) = configs[0];
+        setups.push(with_prelude(make_setup(ti, o, f), pid));
+        configs.push((ti, o, f));
+        let ci = setups.len() - 1;
+        for op in &second_ops {
+            let oi = oplist.iter().position(|x| x == op).unwrap();
+            for a in 0..N_REP {
+                for b in 0..N_REP {
+                    jobs.push((ci, oi, a, b));
+                }
+            }
+        }
+    }
     let accs = par_range(jobs.len() as u64, 8, || (Acc::default(), TreeStats::default(), std::collections::BTreeMap::<String, TreeStats>::new()), |st, j| {
         let (ci, oi, a, b) = jobs[j as usize];
         let su = &setups[ci];
         let op = oplist[oi];
+        if let Some((t0, budget)) = DEADLINE.get() {
+            if t0.elapsed().as_secs_f64() > *budget {
+                ABORT.store(true, std::sync::atomic::Ordering::Relaxed);
+            }
+        }
+        if ABORT.load(std::sync::atomic::Ordering::Relaxed) {
+            st.1.aborted = true;
+            return;
+        }
+        arm_prelude(su);
         // only expand (a,b) if the run with prefix [a] is starved (else the leaf [a] is handled by the b==0 job)
         let one = run_real(op, su.own, su.foreign, su.typ, &su.page_lists, &[rep_of(a)]);
         let mut local = TreeStats::default();
@@ -233,7 +289,8 @@ pub fn run_mode(ctx: &Ctx, mode: Mode) -> Report {
         st.1.cut += local.cut;
         st.1.max_depth = st.1.max_depth.max(local.max_depth);
         st.1.aborted |= local.aborted;
-        let e = st.2.entry(format!("{} / {:?} / own {:04X}", op_name(op), su.typ, su.own)).or_default();
+        crate::ctlsys::set_prelude(None);
+        let e = st.2.entry(format!("{} / {:?} / own {:04X}{}", op_name(op), su.typ, su.own, su.prelude.as_ref().map(|p| format!(" / after prelude {}", p.0)).unwrap_or_default())).or_default();
         e.runs += local.runs;
         e.leaves += local.leaves;
         e.cut += local.cut;
@@ -283,6 +340,9 @@ pub fn run_mode(ctx: &Ctx, mode: Mode) -> Report {
 fn horizon_for(op: Op, h: usize) -> usize {
     match op {
         Op::Show | Op::LoadNext => h,
+        // the long page list: three attempts of 64+ chunks each must fit (the tree stays narrow: only "no reply"
+        // continues a transfer)
+        Op::SendPages(3) => 1000,
         _ => 64,
     }
 }
@@ -296,7 +356,8 @@ pub fn replay_mode(mode: Mode, case: &Value) -> Result<Vec<Violation>, String> {
         return Err("unknown case kind".into());
     }
     let ti = case["type_index"].as_u64().ok_or("type_index")? as usize;
-    let su = make_setup(ti, case["own"].as_u64().ok_or("own")? as u16, case["foreign"].as_u64().ok_or("foreign")? as u16);
+    let su = with_prelude(make_setup(ti, case["own"].as_u64().ok_or("own")? as u16, case["foreign"].as_u64().ok_or("foreign")? as u16), case["prelude"].as_u64().unwrap_or(0) as usize);
+    arm_prelude(&su);
     let op = op_from(case["op_code"].as_u64().ok_or("op_code")?);
     let script: Vec<usize> = case["script"].as_array().ok_or("script")?.iter().map(|x| x.as_u64().unwrap() as usize).collect();
     // a cut prefix is one whose run is starved
